@@ -646,6 +646,54 @@ def sibling_failure():
         pAs.stop(); pBs.stop()
     except Exception as e:
         sibling_result['machinery'] = repr(e)
+# ---- upstream proxies that dress their 200 (real ones do): headers that mean nothing in a reply to CONNECT, then the
+#      origin speaks first - glued to the reply or a little later: every origin byte reaches the client
+def dressed_upstream(splice):
+    up = Origin(fake_http_proxy)
+    q = {k: free_port() for k in ('http', 'socks', 'api')}
+    pd = Proxy({'listeners': [{'name': 'http', 'bind': f"127.0.0.1:{q['http']}"}, {'name': 'socks', 'bind': f"127.0.0.1:{q['socks']}"}],
+                'connectors': [{'name': 'c', 'type': 'http', 'server': '127.0.0.1', 'port': up.port}], 'rules': [{'target': 'c'}],
+                'metrics': {'bind': f"127.0.0.1:{q['api']}", 'ui': None}, 'ioParams': {'bufferSize': 65536, 'useSplice': splice}}, 'c01d')
+    pd.api_port = q['api']
+    if not pd.start([q['http'], q['socks'], q['api']]):
+        machinery('dressed upstream: proxy did not start')
+    out = []
+    try:
+        for k in (0, 7, 50, 5000):
+            for n in (43, 300):
+                for how in ('glued', 'later'):
+                    for client in ('http', 'socks5'):
+                        host = f'dressed-{k}-{n}-{how}.test'
+                        try:
+                            if client == 'http':
+                                s_, code, head, rest = http_connect(q['http'], f'{host}:80', timeout=5)
+                                ok = code == 200
+                            else:
+                                s_, r = socks5_connect(q['socks'], host, 80, timeout=5)
+                                ok, rest = r['rep'] == 0, b''
+                            if not ok:
+                                out.append((k, n, how, client, 'tunnel-not-established'))
+                                s_.close()
+                                continue
+                            got = rest + recv_exact(s_, n - len(rest), 3)
+                            s_.sendall(b'after-the-banner')
+                            echo_ = recv_exact(s_, 16, 3)
+                            s_.close()
+                            out.append((k, n, how, client, 'ok' if (got == b'B' * n and echo_ == b'after-the-banner') else f'origin-first-bytes:{len(got)}-of-{n}-then-echo-{len(echo_)}'))
+                        except OSError as e:
+                            out.append((k, n, how, client, f'client-error:{e!r}'[:60]))
+    finally:
+        pd.stop(); up.stop()
+    return out
+dressed_results = {}
+def dressed_thread():
+    for sp_ in (True, False):
+        try:
+            dressed_results[sp_] = dressed_upstream(sp_)
+        except Exception as e:
+            dressed_results[sp_] = repr(e)
+dressed_t = threading.Thread(target=dressed_thread, daemon=True)
+dressed_t.start()
 sibling_thread = threading.Thread(target=sibling_failure, daemon=True)
 sibling_thread.start()
 results = run_parallel(cells, run_cell, workers=16)
@@ -668,6 +716,17 @@ for p in procs:
         chk.violation('process', 'proxy-died', f'exit {p.returncode()}: {p.log()[-300:]}', {})
     p.stop()
 origin.stop(); banner_origin.stop(); deaf.stop()
+dressed_t.join(180)
+if dressed_t.is_alive():
+    machinery('dressed upstream scenario did not finish')
+for sp_, res in dressed_results.items():
+    if isinstance(res, str):
+        machinery(f'dressed upstream splice={sp_}: {res}')
+    for k, n, how, client, verdict in res:
+        evals += 1
+        distinct.add(('dressed', k > 0, how, client, verdict.split(':')[0]))
+        if verdict != 'ok':
+            chk.violation(f'tunnel.{client}->http', f'upstream-reply-with-headers:{verdict.split(":")[0]}|splice={sp_}', f'{client} -> http connector (useSplice={sp_}): the upstream answers 200 with Content-Length: {k} (meaningless there), the origin then sends {n} bytes ({how}): {verdict}', {'client': client, 'content_length': k, 'banner': n, 'how': how, 'useSplice': sp_})
 sibling_thread.join(60)
 evals += 1
 if sibling_thread.is_alive() or 'machinery' in sibling_result:
